@@ -1,0 +1,54 @@
+/*!
+Verification hooks (feature `verif-hooks` only).
+
+The parallel walker calls [`yield_at`] at each of its synchronisation points.
+When no hook is installed this is a no-op. An external controller can install
+a hook with [`set_yield_hook`] to serialize and order the worker threads.
+*/
+
+use std::sync::{Arc, RwLock};
+
+/// A synchronisation point of the parallel walker.
+#[derive(Clone, Copy, Debug, Eq, PartialEq, Hash)]
+pub enum YieldPoint {
+    /// A worker thread is about to start its loop.
+    Start,
+    /// A worker thread has left its loop.
+    Exit,
+    /// A message is about to be pushed on the worker's own deque.
+    Push,
+    /// The worker is about to pop from its own deque.
+    Pop,
+    /// The worker is about to try stealing from the other deques.
+    Steal,
+    /// The active worker count is about to be decremented.
+    Deactivate,
+    /// The active worker count is about to be incremented.
+    Activate,
+    /// The quit flag is about to be read.
+    QuitRead,
+    /// The quit flag is about to be set.
+    QuitWrite,
+    /// The worker found nothing to do and is about to sleep.
+    Idle,
+}
+
+/// The type of an installed hook: called with the yield point and the index
+/// of the worker's stack.
+pub type YieldHook = Arc<dyn Fn(YieldPoint, usize) + Send + Sync + 'static>;
+
+static HOOK: RwLock<Option<YieldHook>> = RwLock::new(None);
+
+/// Install (or with `None`, remove) the process-wide yield hook.
+pub fn set_yield_hook(hook: Option<YieldHook>) {
+    *HOOK.write().unwrap_or_else(|e| e.into_inner()) = hook;
+}
+
+/// Called by the walker at each synchronisation point.
+#[inline]
+pub(crate) fn yield_at(point: YieldPoint, index: usize) {
+    let hook = HOOK.read().unwrap_or_else(|e| e.into_inner()).clone();
+    if let Some(hook) = hook {
+        hook(point, index);
+    }
+}
